@@ -35,7 +35,8 @@ def plans(run, rt, quick):
     # special sources and imported graphs
     pdf = pd.DataFrame({"a": range(12), "b": [i % 3 for i in range(12)]})
     df = rt.dx.from_pandas(pdf, npartitions=4)
-    specials = {
+    specials = {}
+    base = {
         "partition-filtered source": df.partitions[[1, 3]] + 1,
         "partition-filtered shuffle": df.shuffle("b", shuffle_method="tasks").partitions[[0, 2]],
         "partition-filtered disk shuffle": df.shuffle("b", shuffle_method="disk").partitions[[1]],
@@ -60,6 +61,30 @@ def plans(run, rt, quick):
         "head": df.head(3, npartitions=2, compute=False),
         "tail": df.tail(3, compute=False),
     }
+    specials.update(base)
+    import catalogue
+    for nm, coll in catalogue.build_all(rt.dx, order_seed=run.seed).items():
+        specials["catalogue:" + nm] = coll
+    pair = {
+        "two quantiles of one series": lambda: df.a.quantile(0.9) + df.a.quantile(0.1),
+        "two quantile lists of one series": lambda: rt.dx.concat([df.a.quantile([0.1, 0.5]), df.a.quantile([0.2, 0.5, 0.9])]),
+        "two tree reductions of one series": lambda: df.a.sum(split_every=2) + df.a.sum(split_every=3),
+        "two heads of one frame": lambda: rt.dx.concat([df.head(2, compute=False), df.head(3, compute=False)]),
+        "two shuffles of one frame": lambda: rt.dx.concat([df.shuffle("b", npartitions=2, shuffle_method="tasks"), df.shuffle("b", npartitions=3, shuffle_method="tasks")]),
+        "two shuffles by other keys": lambda: rt.dx.concat([df.shuffle("b", shuffle_method="tasks"), df.shuffle("a", shuffle_method="tasks")]),
+        "two sorts of one frame": lambda: rt.dx.concat([df.sort_values("b"), df.sort_values("b", ascending=False)]),
+        "two groupbys of one frame": lambda: rt.dx.concat([df.groupby("b").a.sum(split_out=2).to_frame(), df.groupby("b").a.sum(split_out=1).to_frame()]),
+        "two cumulatives of one frame": lambda: df.cumsum() + df.cummax(),
+        "two nuniques": lambda: df.a.nunique() + df.b.nunique(),
+        "var and std": lambda: df.a.var() + df.a.std(),
+        "two value_counts": lambda: rt.dx.concat([df.a.value_counts(), df.b.value_counts()]),
+        "two partition selections": lambda: rt.dx.concat([df.partitions[[0, 1]], df.partitions[[1, 0]]]),
+        "two merges of one pair": lambda: rt.dx.concat([df.merge(df, on="b", how="inner", shuffle_method="tasks"), df.merge(df, on="b", how="left", shuffle_method="tasks")]),
+    }
+    for tag, th in pair.items():
+        c = try_(th)
+        if c[0] == "ok":
+            specials["pair:" + tag] = c[1]
     for tag, coll in specials.items():
         for fuse in (False, True):
             e = try_(lambda: coll.optimize(fuse=fuse).expr)
